@@ -68,3 +68,26 @@ CHECKS["C07"] = dict(
           "Don't-care: caller tied with another applicable method for the forwarded arguments. Recorded findings excluded by mechanism-level predicates: "
           "C02-integer-levels (per step), C07-fnext-drops-self, C07-upper-rank-tie. Variants/mixins supplying part of the chain are exercised by C08/C16."),
 )
+
+CHECKS["C04"] = dict(
+    engine="symx", category="model_checking", design_ref="DESIGN.md §6 C04",
+    technique="symbolic execution of the real cache-miss / cache-hit paths over a symbolic hierarchy, priorities and call history (z3 selectors); differential oracle against a fresh build under the same model",
+    text=("A shared function receives a history of calls whose argument classes (and value-dependent flags) are chosen by solver selectors, then the "
+          "same calls again; every call's outcome (chain of entered methods, result or error kind) must equal that of the first call ever made on a "
+          "function freshly built from the same methods under the same model. Method sets include call_next chains, swallowed continuation errors, "
+          "call_next/recurse with other arguments and value-dependent methods, so continuation entries and remembered errors exist. One exploration "
+          "per method set; the solver exhausts hierarchies, priorities and histories up to the budget."),
+    note=("Bounds: 3 classes, 3 methods, 1 position, histories of 4 calls (2 chosen + 2 repeats), arguments from {K0, K1, object()}; shapes sampled "
+          "(110 quick / 2500 thorough of 3.9k). A differential oracle sees history dependence only, not a rule violation present from the first call "
+          "(that is C02/C07/C10)."),
+)
+CHECKS["C05"] = dict(
+    engine="symx", category="model_checking", design_ref="DESIGN.md §6 C05",
+    technique="symbolic execution of register/unregister/recompile paths over a symbolic hierarchy and priorities (z3); differential oracle against an object built from the live method list",
+    text=("Histories of register / re-register-same-signature / unregister operations on an Ovld (4-5 operations) and of registrations on the public "
+          "MultiTypeMap (3-4), with probes after each operation, are executed once per class of (hierarchy, priorities); every probe must equal the "
+          "same probe on an object built directly from the live methods under the same model."),
+    note=("Bounds: 3 classes, pool of 4 methods (one duplicating another's signature and priority), bodies return / call_next / recurse(other); "
+          "histories and probe patterns enumerated and sampled (480 quick, ~6.8k thorough). Two defects found by this check were repaired "
+          "(c4ac278, 60b1be0) and are listed as fixed."),
+)
